@@ -51,7 +51,7 @@ mut('factory-neighbour-class', 'File.cpp', [["    case ObjectType::CAN_ERROR:\n 
 mut('ctor-wrong-enumerator', 'LinCrcError2.cpp', [["    ObjectHeader(ObjectType::LIN_CRC_ERROR2) {", "    ObjectHeader(ObjectType::LIN_CRC_ERROR) {"]],
     ['C17', 'C01'], ['D1|class|LinCrcError2', 'D1|code|LIN_CRC_ERROR2'], 'constructor carries the code of the older sibling type')
 mut('skip-reserved-on-read', 'AppText.cpp', [[R('reservedAppText2'), "    is.seekg(sizeof(reservedAppText2), std::ios_base::cur);\n"]],
-    ['C02', 'C01'], ['L7|AppText|padfield', 'padfield'], 'reserved field skipped instead of stored: decode/encode is no longer the identity')
+    ['C02', 'C01'], ['L7|AppText', 'padfield'], 'reserved field skipped instead of stored: decode/encode is no longer the identity')
 mut('reserved-written-as-zero', 'AppText.cpp', [["    textLength = static_cast<uint32_t>(text.size());\n", "    textLength = static_cast<uint32_t>(text.size());\n    reservedAppText1 = 0;\n"]],
     ['C02'], ['L2r|AppText|value:reservedAppText1'], 'reserved field overwritten with a constant before encoding')
 mut('skipp-reserve', 'AbstractFile.cpp', [["    zero.resize(s);", "    zero.reserve(s);"]],
@@ -145,6 +145,11 @@ ben('swap-aborts', 'File.cpp', [["        m_uncompressedFile.abort();\n\n       
 ben('predicate-reordered', 'ObjectQueue.cpp', [["        return\n        m_abort ||\n        !m_queue.empty() ||\n        (m_tellg >= m_fileSize);", "        return\n        !m_queue.empty() ||\n        (m_tellg >= m_fileSize) ||\n        m_abort;"]], PIPE)
 ben('null-check-inverted', 'File.cpp', [["    /* process data */\n    if (ohb == nullptr) {\n        // Read intentionally returns, when the thread is aborted.\n        return;\n    }\n\n    /* write into uncompressedFile */\n    ohb->write(m_uncompressedFile);\n\n    /* statistics */\n    if (ohb->objectType != ObjectType::Unknown115)\n        currentObjectCount++;\n\n    /* delete object */\n    delete ohb;\n",
                                          "    /* process data */\n    if (ohb != nullptr) {\n        /* write into uncompressedFile */\n        ohb->write(m_uncompressedFile);\n\n        /* statistics */\n        if (ohb->objectType != ObjectType::Unknown115)\n            currentObjectCount++;\n\n        /* delete object */\n        delete ohb;\n    }\n"]], PIPE)
+ben('stat-from-vector-size', 'File.cpp', [["        logContainer.internalHeaderSize() +\n        logContainer.uncompressedFileSize;", "        logContainer.internalHeaderSize() +\n        logContainer.uncompressedFile.size();"]], ['C05', 'C04'],
+    'equal to the field while the size invariant established by resize(uncompressedFileSize) holds')
+mut('stat-from-moved-vector', 'File.cpp', [["        logContainer.internalHeaderSize() +\n        logContainer.uncompressedFileSize;", "        logContainer.internalHeaderSize() +\n        logContainer.uncompressedFile.size();"]],
+    ['C05'], ['H1|File::uncompressedFile2CompressedFile'], 'two cooperating sites: statistic from the vector size + compress() moving the vector out (level 0 only)')
+M[-1]['extra_edits'] = [('LogContainer.cpp', [["        compressedFile = uncompressedFile;\n        compressedFileSize = uncompressedFileSize;", "        compressedFile = std::move(uncompressedFile);\n        compressedFileSize = uncompressedFileSize;"]])]
 ben('factory-without-parens', 'File.cpp', [["        obj = new CanErrorFrame();", "        obj = new CanErrorFrame;"]], ['C17', 'C01'])
 ben('compression-branch-inverted', 'File.cpp', [["    if (compressionLevel == 0) {\n        /* no compression */\n        logContainer.compress(0, 0);\n    } else {\n        /* zlib compression */\n        logContainer.compress(2, compressionLevel);\n    }", "    if (compressionLevel != 0) {\n        /* zlib compression */\n        logContainer.compress(2, compressionLevel);\n    } else {\n        /* no compression */\n        logContainer.compress(0, 0);\n    }"]], PIPE)
 
@@ -163,9 +168,17 @@ def main():
                     raise SystemExit('%s: pattern occurs %d times: %r' % (m['name'], new.count(old), old[:80]))
                 new = new.replace(old, rep)
             diff = ''.join(difflib.unified_diff(src.splitlines(True), new.splitlines(True), 'a/' + m['file'], 'b/' + m['file']))
+            for (f2, pairs2) in m.get('extra_edits', []):
+                src2 = open(os.path.join('/repo', B + f2)).read()
+                new2 = src2
+                for old, rep in pairs2:
+                    if new2.count(old) != 1:
+                        raise SystemExit('%s: pattern occurs %d times: %r' % (m['name'], new2.count(old), old[:80]))
+                    new2 = new2.replace(old, rep)
+                diff += ''.join(difflib.unified_diff(src2.splitlines(True), new2.splitlines(True), 'a/' + B + f2, 'b/' + B + f2))
             open(os.path.join(d, m['name'] + '.patch'), 'w').write(diff)
             m['patch'] = m['name'] + '.patch'
-    idx = {'mutants': [{k: v for k, v in m.items() if k not in ('pairs',)} for m in M],
+    idx = {'mutants': [{k: v for k, v in m.items() if k not in ('pairs', 'extra_edits')} for m in M],
            'benign': [{k: v for k, v in m.items() if k not in ('pairs',)} for m in G]}
     json.dump(idx, open('/verif/mutants/index.json', 'w'), indent=1)
     print('%d mutants, %d benign variants' % (len(M), len(G)))
